@@ -7,6 +7,8 @@ import AnySyncModel.Keys.Model
     items: enter <a> <term> | rot rm=<l> ak=<a:term,…|-> ik=<i:term,…|-> old=<term>
            | inv <i> <0/1> <term|-> | revoke <i> | drop <a> | grant <a> | nop
     terms: A<a>.<g> = aenc (acc a) (rk g), I<i>.<g> = aenc (inv i) (rk g), S<g1>.<g2> = senc (rk g1) (rk g2), J
+  touch <a>  → `cache=<bits oldest first>`  (the long-lived tree of account a is touched: refresh, then report)
+  peek <a>   → `cache=<bits>`               (report only)
   table: `wf=<0/1> cur=<g> mem=<l> inv=<l> keys=<a>:<bits oldest first | E>,…`
 -/
 namespace AnySync.Driver.Keys
@@ -18,6 +20,7 @@ structure DS where
   wf    : Bool := true
   g     : G := G0 0
   views : List (Option (List Bool)) := []
+  caches : List (List Nat) := []   -- per account: key cache of its long-lived tree
 
 def init : DS := {}
 
@@ -79,6 +82,10 @@ def table (s : DS) : String :=
     | _ => s!"{a}:E")
   s!"wf={showBool s.wf} cur={s.g.ngen - 1} mem={showNats (sortNat s.g.members)} inv={showNats (sortNat (s.g.invites.map (·.id)))} keys={",".intercalate rows}"
 
+def cacheRow (s : DS) (a : Nat) : String :=
+  let c := s.caches[a]?.getD []
+  "cache=" ++ String.join ((List.range s.g.ngen).map (fun g => if treeDecrypts c g then "1" else "0"))
+
 def applyItem (s : DS) (it : Item) : DS :=
   { s with
     wf := s.wf && wfItem s.g it,
@@ -105,9 +112,25 @@ def step (s : DS) (line : String) : DS × String :=
     match o.toNat?, term? t with
     | some o, some c =>
       let s' : DS := { n := s.n, ready := true, wf := decide (c = rootTerm o), g := G0 o,
-                       views := (List.range s.n).map (fun a => some (view0 a o)) }
+                       views := (List.range s.n).map (fun a => some (view0 a o)),
+                       caches := (List.range s.n).map (fun a => refresh (view0 a o) []) }
       (s', table s')
     | _, _ => (s, "bad-op")
+  | ["touch", a] =>
+    match a.toNat? with
+    | some a =>
+      if !s.ready || a ≥ s.n then (s, "bad-op") else
+      match s.views[a]? with
+      | some (some h) =>
+        let c := refresh h (s.caches[a]?.getD [])
+        let s' := { s with caches := (List.range s.n).map (fun b => if b = a then c else s.caches[b]?.getD []) }
+        (s', cacheRow s' a)
+      | _ => (s, "cache=E")
+    | none => (s, "bad-op")
+  | ["peek", a] =>
+    match a.toNat? with
+    | some a => if !s.ready || a ≥ s.n then (s, "bad-op") else (s, cacheRow s a)
+    | none => (s, "bad-op")
   | "rec" :: rest =>
     if !s.ready then (s, "bad-op") else
     match (splitItems rest).mapM item? with
